@@ -168,11 +168,15 @@ class Source:
         """path: `name` (free fn), `Type::name` (inherent impl), `<Trait for Type>::name`,
         `trait Trait::name`.  returns (item_pos, sig_open_brace or None, close or None)"""
         scopes = []
-        if path.startswith('<'):
+        if '/' in path and not path.startswith('<'):
+            outer, name = path.rsplit('/', 1)
+            _, op, cl = self.find_fn(outer)
+            scopes = [(op, cl)]
+        elif path.startswith('<'):
             hdr, name = re.match(r'<(.*)>::(\w+)$', path).groups()
             scopes = [(op, cl) for (_, op, cl) in self.find_block('impl', hdr)]
-        elif path.startswith('trait '):
-            hdr, name = re.match(r'trait (\w+)::(\w+)$', path).groups()
+        elif path.startswith('trait:'):
+            hdr, name = re.match(r'trait:(\w+)::(\w+)$', path).groups()
             scopes = [(op, cl) for (_, op, cl) in self.find_block('trait', hdr)]
         elif '::' in path:
             hdr, name = path.rsplit('::', 1)
